@@ -743,8 +743,8 @@ func rulePoolPredicate(c *Ctx, rule string) {
 				"a pool becomes a goroutine exactly when its first provider is Async (the test findOptimalPool and the wait computation assume)", term)
 		case strings.HasSuffix(term, ", nil)") && (strings.HasPrefix(term, "bin!=(") || strings.HasPrefix(term, "bin==(")):
 			// error / nil checks are not scheduling decisions
-		case strings.Contains(term, genPkg+".") || strings.Contains(term, "closure:"):
-			// a call-based predicate on the way to creating or not creating a chain
+		case (strings.Contains(term, genPkg+".") || strings.Contains(term, "closure:")) && decidesChainCreation(iff):
+			// a call-based predicate that (without the IsAsync test in between) selects between creating and not creating a chain
 			n++
 			c.fail(rule, fnName(fn)+":pool-kind-predicate", pos, "buildStmts classifies or schedules a pool through a predicate other than its first provider's IsAsync flag", term)
 		}
@@ -903,3 +903,74 @@ func rulePoolsProcessed(c *Ctx, rule string) {
 
 // unused import guard
 var _ = token.ADD
+
+// decidesChainCreation: exactly one successor of the branch reaches a block that allocates an *InjectorChainStmt without first
+// passing a branch on ProviderSpec.IsAsync. A readiness test in front of the IsAsync test is therefore not a scheduling-kind decision.
+func decidesChainCreation(iff *ssa.If) bool {
+	fn := iff.Parent()
+	isChainBlock := func(b *ssa.BasicBlock) bool {
+		for _, in := range b.Instrs {
+			if al, ok := in.(*ssa.Alloc); ok {
+				if strings.HasSuffix(al.Type().String(), "internal/kessoku.InjectorChainStmt") {
+					return true
+				}
+			}
+		}
+		return false
+	}
+	isAsyncBranch := func(b *ssa.BasicBlock) bool {
+		if len(b.Instrs) == 0 {
+			return false
+		}
+		i2, ok := b.Instrs[len(b.Instrs)-1].(*ssa.If)
+		if !ok {
+			return false
+		}
+		found := false
+		var walk func(v ssa.Value, d int)
+		walk = func(v ssa.Value, d int) {
+			if d > 6 || v == nil {
+				return
+			}
+			switch x := v.(type) {
+			case *ssa.UnOp:
+				if fa, ok := x.X.(*ssa.FieldAddr); ok && fieldKey(fa) == "internal/kessoku.ProviderSpec.IsAsync" {
+					found = true
+				}
+				walk(x.X, d+1)
+			case *ssa.BinOp:
+				walk(x.X, d+1)
+				walk(x.Y, d+1)
+			case *ssa.Phi:
+				for _, e := range x.Edges {
+					walk(e, d+1)
+				}
+			}
+		}
+		walk(i2.Cond, 0)
+		return found
+	}
+	reach := func(start *ssa.BasicBlock) bool {
+		seen := map[*ssa.BasicBlock]bool{}
+		stack := []*ssa.BasicBlock{start}
+		for len(stack) > 0 {
+			b := stack[len(stack)-1]
+			stack = stack[:len(stack)-1]
+			if seen[b] {
+				continue
+			}
+			seen[b] = true
+			if isChainBlock(b) {
+				return true
+			}
+			if isAsyncBranch(b) || b == iff.Block() {
+				continue
+			}
+			stack = append(stack, b.Succs...)
+		}
+		return false
+	}
+	_ = fn
+	t, f := reach(iff.Block().Succs[0]), reach(iff.Block().Succs[1])
+	return t != f
+}
